@@ -152,13 +152,16 @@ func (w *world) materialize(s cstate, variant int) error {
 	return nil
 }
 
-// observe abstracts the real telemetry directory.
-func (w *world) observe() cstate {
+// observe abstracts the real telemetry directory (one walk): the entries other
+// than the mode file, the mode-file class, and the raw snapshot of the mode file.
+func (w *world) observe() (cstate, map[string]vm.SnapEntry) {
 	st := cstate{Tree: []entry{}}
+	mode := map[string]vm.SnapEntry{}
 	sn := vm.Snapshot(w.dir)
 	for rel, se := range sn {
 		rel = filepath.ToSlash(rel)
 		if rel == "mode" || strings.HasPrefix(rel, "mode/") {
+			mode[rel] = se
 			continue
 		}
 		loc, name := "root", rel
@@ -190,18 +193,7 @@ func (w *world) observe() cstate {
 	if st.ModeFile.D >= 0 {
 		st.ModeFile.D -= w.shift
 	}
-	return st
-}
-
-func modeSnap(dir string) map[string]vm.SnapEntry {
-	out := map[string]vm.SnapEntry{}
-	for k, v := range vm.Snapshot(dir) {
-		k = filepath.ToSlash(k)
-		if k == "mode" || strings.HasPrefix(k, "mode/") {
-			out[k] = v
-		}
-	}
-	return out
+	return st, mode
 }
 
 func sameSnap(a, b map[string]vm.SnapEntry) bool {
@@ -287,14 +279,12 @@ func runScenario(e *env, sc *scenario) {
 		}
 	} // else: the telemetry directory does not exist at all
 	foreign := vm.Snapshot(base)
+	pre, preMode := w.observe()
 	for i, c := range sc.Cmds {
-		pre := w.observe()
-		preMode := modeSnap(w.dir)
 		d0 := utcDay() - w.shift
 		stdout, stderr, rc := w.run(e.bin, c)
 		d1 := utcDay() - w.shift
-		post := w.observe()
-		postMode := modeSnap(w.dir)
+		post, postMode := w.observe()
 		// the observer: `gotelemetry env` after every mode command (and the
 		// command's own output when it is env)
 		var seen vm.ReadBack
@@ -309,7 +299,10 @@ func runScenario(e *env, sc *scenario) {
 			seen, dirOK = w.parseEnv(envOut)
 			envRun = true
 		}
-		after := w.observe()
+		after, afterMode := post, postMode
+		if envRun && c != "env" {
+			after, afterMode = w.observe()
+		}
 		lib := vm.LibRead(w.dir)
 		if lib.D >= 0 {
 			lib.D -= w.shift
@@ -320,8 +313,9 @@ func runScenario(e *env, sc *scenario) {
 		rec := rt.M{"kind": "obs", "src": sc.Src, "id": sc.ID, "step": i, "cmd": c, "s": pre, "t": post,
 			"modeSame": sameSnap(preMode, postMode), "env": seen, "lib": lib, "today0": d0, "today1": d1, "rc": rc,
 			"stderr": trunc(stderr), "env_dir_ok": dirOK, "env_rc": envRC, "env_run": envRun,
-			"env_changed": !sameState(post, after)}
+			"env_changed": !sameState(post, after) || !sameSnap(postMode, afterMode)}
 		rt.Out(rec)
+		pre, preMode = after, afterMode
 	}
 	// nothing outside the telemetry directory may be touched (HOME, the config root)
 	now := vm.Snapshot(base)
